@@ -1,0 +1,7 @@
+//go:build verif
+
+package trafficpattern
+
+// Exports for the external verification harness (property C16). Add-only; compiled only with -tags verif.
+
+const VerifC16MaxPaddingLen = maxPaddingLen
